@@ -18,7 +18,7 @@ RULE = ('random finite MPS with non-uniform bond dimensions (L 2-6, all site kin
 ASSUMPTIONS = ['C07 (the harness contraction denotes the MPS state)', 'fermionic swap sign = (-1)^(n_i n_j) from the JW parities']
 ANCHORS = {'tenpy/networks/mps.py': ['*']}
 REQUIRED_COUNTERS = {'op.apply_local_op': 20, 'op.apply_local_term': 10, 'op.swap_sites': 10, 'op.permute_sites': 5, 'op.add': 10,
-                     'op.group': 5, 'op.compress': 10, 'op.spatial_inversion': 5, 'op.enlarge_chi': 5, 'infinite.roll': 10,
+                     'op.group': 5, 'op.compress': 10, 'op.spatial_inversion': 5, 'op.enlarge_chi': 5, 'infinite.roll': 10, 'infinite.inversion': 3,
                      'infinite.enlarge': 5, 'histories': 100}
 OPS = ['apply_local_op', 'apply_local_op2', 'apply_product_op', 'apply_local_term', 'swap_sites', 'permute_sites', 'add', 'group',
        'enlarge_chi', 'perturb', 'compress', 'spatial_inversion', 'gauge_total_charge', 'convert_form']
@@ -344,9 +344,24 @@ def case_infinite(ctx, i):
     case = {'sites': kind, 'L': L, 'chi': chi, 'forms': forms}
     n = int(rng.integers(1, 3))
     base = [window_rho(psi, k, n) for k in range(L)]
-    op = str(rng.choice(['roll', 'roll', 'enlarge', 'roll+enlarge']))
+    op = str(rng.choice(['roll', 'roll', 'enlarge', 'roll+enlarge', 'inversion']))
     case['op'] = op
     try:
+        if op == 'inversion':
+            base1 = [window_rho(psi, k, 1) for k in range(L)]
+            psi.spatial_inversion()
+            psi.test_sanity()
+            ctx.count('infinite.inversion')
+            nt = psi.norm_test()
+            if np.max(np.abs(nt)) > 1e-7:
+                ctx.violation('spatial_inversion(infinite):not-canonical', 'norm_test %r (forms %r)' % (np.asarray(nt).tolist(), forms), case)
+                return
+            for j in range(L):
+                r = window_rho(psi, j, 1)
+                if r.shape != base1[L - 1 - j].shape or np.linalg.norm(r - base1[L - 1 - j]) > 1e-7:
+                    ctx.violation('spatial_inversion(infinite):observables-not-mirrored', 'site %d: |rho_new(j) - rho_old(L-1-j)| = %g' %
+                                  (j, np.linalg.norm(r - base1[L - 1 - j]) if r.shape == base1[L - 1 - j].shape else -1), case)
+                    return
         if 'roll' in op:
             shift = int(rng.integers(-L, 2 * L))
             case['shift'] = shift
